@@ -26,48 +26,33 @@ def check(ctx):
                             lambda o: o.startswith("std::result::Result<std::string::String"))
     if a is not None:
         fn, ms = a
-        N = Norm(fn)
         m = ms[0]
         arms = arms_by_variant(m)
         for v in q.variants_of(P, "TypeDef", "scale_info"):
-            if v not in arms:
-                ctx.bad("C13.1", "arm/" + v, site(m), "no explicit arm for TypeDef::%s in the description" % v)
-        R = "Transformer::resolve(P1,%s)?"
-        exp = {
-            "Composite": "description::fields_type_description(A.fields,P1)",
-            "Variant": "description::variant_type_def_type_description(A,P1)",
-            "Sequence": "Ok(F[Vec<{%s}>])" % (R % "A.type_param.id"),
-            "Array": "Ok(F[[{%s}; {A.len}]])" % (R % "A.type_param.id"),
-            "Tuple": "description::tuple_type_description(A,P1)",
-            "Primitive": "Ok(description::primitive_type_description(A))",
-            "Compact": "Ok(F[Compact<{%s}>])" % (R % "A.type_param.id"),
-            "BitSequence": "Ok(F[BitSequence({%s}, {%s})])" % (R % "A.bit_order_type.id", R % "A.bit_store_type.id"),
-        }
-        for v, e in exp.items():
-            if v in arms:
-                t = N.term(arms[v]["body"], q.arm_syms(arms[v]["pat"]))
-                expect_term(ctx, "C13.1", "arm/" + v, arms[v], t, e, "%s is described from its own children through the transformer" % v)
+            ctx.expect(v in arms, "C13.1", "arm/" + v, site(m), "TypeDef::%s has an explicit arm in the description" % v, "no explicit arm for TypeDef::%s in the description" % v)
+    # the description of one type as ONE reviewed term: the private helpers between the policy function `ty_description` and the registry (per
+    # type-def, fields, field, variants, variant, tuple) are looked through, so that what each arm emits - `()` / `{..}` / `(..)` by the field
+    # names, every field through resolve(field.ty.id) in order with `name: ` and Box<..>, `{v1,v2}` for variants, Vec<..>, [..; len], the tuple
+    # comma, Compact<..>, BitSequence(..) - is pinned together with how the pieces are put together
+    fn = DR.expect_golden(ctx, "C13.1", "description", "desc/ty_description", "description::ty_description",
+                          "description = prefix (enum / struct / none) + name with parameters (iff the type has an ident) + structure of its own TypeDef: every child "
+                          "through the transformer's resolve of its own id, in order")
+    # (the field list keeps a function of its own: it leaves early on mixed named / unnamed fields, which cannot be read as part of its caller)
     DR.expect_golden(ctx, "C13.1", "fields", "desc/fields_type_description", "description::fields_type_description",
                      "`()` for no fields; `{..}` iff all named, `(..)` iff all unnamed, Err for mixed; every field described in order, comma between fields; "
                      "field (private helper looked through) = resolve(field.ty.id), wrapped in Box<..> iff the recorded type name contains `Box<`, prefixed by `name: ` iff named")
-    DR.expect_golden(ctx, "C13.1", "variants", "desc/variant_type_def_type_description", "description::variant_type_def_type_description",
-                     "`{v1,v2,..}`: every variant in order, comma between variants; variant (private helper looked through) = its own name followed by its own "
-                     "fields (omitted when `()`)")
-    DR.expect_golden(ctx, "C13.3", "tuple", "desc/tuple_type_description", "description::tuple_type_description",
-                     "`(a,b)`: every member through resolve(member id) in order; comma after an element iff another follows or the tuple has exactly one element")
     DR.expect_golden(ctx, "C13.5", "type-name", "desc/type_name_with_type_params", "description::type_name_with_type_params",
                      "names: Vec<..>, [..;len], (..,) with the one-element comma, Compact<..>, primitives, BitSequence, ident<params..> with `_` for skipped parameters")
     # K14: both tuple emitters use the same comma rule
-    g1, g2 = DR.golden("desc/tuple_type_description"), DR.golden("desc/type_name_with_type_params")
-    for nm, fnsuf in (("tuple-emitter/structural", "description::tuple_type_description"), ("tuple-emitter/name", "description::type_name_with_type_params")):
-        fn = q.fn1(P, fnsuf, D)
-        if fn is None:
+    import re as _re
+    for nm, fnsuf in (("tuple-emitter/structural", "description::ty_description"), ("tuple-emitter/name", "description::type_name_with_type_params")):
+        tf = q.fn1(P, fnsuf, D)
+        if tf is None:
             continue
-        t = show(Norm(fn).term(fn["body"]), 10 ** 6)
-        import re as _re
+        t = show(Norm(tf).term(tf["body"]), 10 ** 6)
         # canonical form of the separator loop: the members joined by ',', then one more ',' iff there is exactly one member
-        ok = _re.search(r"F\[\(\{slice::join\(.*,','\)\}\{if\(\(slice::len\([^()]*fields\)=='1'\)\)\{','\}else\{''\}\}\)\]", t) is not None
-        ctx.expect(ok, "C13.3", nm, fn["sp"], "members joined by ',' and a trailing ',' iff len == 1 (one-element tuples keep their comma)", "tuple comma rule changed in " + fnsuf + ": " + t[:300])
+        ok = _re.search(r"F\[\(\{slice::join\(.*?,','\)\??\}\{if\(\(slice::len\([^()]*fields\)=='1'\)\)\{','\}else\{''\}\}\)\]", t) is not None
+        ctx.expect(ok, "C13.3", nm, tf["sp"], "members joined by ',' and a trailing ',' iff len == 1 (one-element tuples keep their comma)", "tuple comma rule changed in " + fnsuf + ": " + t[:300])
     # K1 primitive names
     pf = q.fn1(P, "description::primitive_type_description", D)
     if pf is None:
@@ -99,13 +84,6 @@ def check(ctx):
     ctx.expect(vals == {"Box<"} and len(lit_crates) >= 2, "C13.1", "box-literal-agreement", "", "all %d Box detections (%s) use the same literal `Box<`" % (len(lits), sorted({f for f, _ in lits})),
                "Box detection literals differ: %s" % lits)
     # policies
-    fn = q.fn1(P, "description::ty_description", D)
-    if fn is not None:
-        expect_term(ctx, "C13.4", "policy/text", fn["sp"], Norm(fn).term(fn["body"]),
-                    "Ok(F[{match(P1.type_def){TypeDef::Variant(_)=>'enum ';TypeDef::Composite(_)=>'struct ';TypeDef::Array(_)=>'';TypeDef::BitSequence(_)=>'';TypeDef::Compact(_)=>'';TypeDef::Primitive(_)=>'';TypeDef::Sequence(_)=>'';TypeDef::Tuple(_)=>''}}{if(Option::is_some(Path::ident(P1.path))){description::type_name_with_type_params(P1,Transformer::types(P2))}else{String::new()}}{description::type_def_type_description(P1.type_def,P2)?}])",
-                    "description = prefix (enum/struct/none) + name with parameters (iff the type has an ident) + structure of its own TypeDef")
-    else:
-        ctx.bad("C13.4", "missing-anchor/ty_description", "", "ty_description not found")
     NAME = "description::type_name_with_type_params(P1,Transformer::types(P%d))"
     # the two policies are whatever is BOUND to the transformer's policy fields at the constructor call in type_description (nested fns or
     # non-capturing closures written in place): found through the fn-pointer bindings, compared as terms
